@@ -30,6 +30,7 @@ type vpReplayRes struct {
 	Msg     string       `json:"msg"`
 	Traces  []vpTraceVal `json:"traces"`
 	Used    int          `json:"used"`
+	Failed  []string     `json:"failed"`
 }
 
 func vpRunOne(req vpReplayReq) (res vpReplayRes) {
@@ -45,6 +46,7 @@ func vpRunOne(req vpReplayReq) (res vpReplayRes) {
 		return
 	}
 	vpTape, vpPos, vpParams, vpTraces, vpWidthErr = req.Tape, 0, req.Params, nil, false
+	vpFailed = nil
 	vpReset()
 	done := make(chan struct{})
 	go func() {
@@ -64,6 +66,9 @@ func vpRunOne(req vpReplayReq) (res vpReplayRes) {
 		}()
 		fn()
 		res.Outcome = "ok"
+		if len(vpFailed) > 0 {
+			res.Outcome, res.Tag = "assert", vpFailed[0]
+		}
 	}()
 	select {
 	case <-done:
@@ -72,6 +77,7 @@ func vpRunOne(req vpReplayReq) (res vpReplayRes) {
 		return
 	}
 	res.Traces = vpTraces
+	res.Failed = vpFailed
 	res.Used = vpPos
 	if vpWidthErr && res.Outcome == "ok" {
 		res.Outcome = "widtherr"
